@@ -61,7 +61,7 @@ def run(prop, tier, replay, Ctx):
     if not os.path.isdir(os.path.join(repo, "cglue")):
         raise Ctx.Machinery("no cglue crate under %s" % repo)
     summary = layout_gen.generate(ws, repo_dir=repo, explore_dir=os.path.join(Ctx.ENGINE, "explore"))
-    Ctx.log("[C20] generated %(bases)d bases, %(twins)d twins in %(shards)d shard crates; cases %(cases)s" % summary)
+    Ctx.log("[C20] generated %(bases)d bases, %(twins)d twins in %(shards)d shard crates; cases %(cases)s; call sequences %(sequences)s" % summary)
     if replay is not None:
         with open(replay) as f:
             rec = json.load(f)
@@ -89,7 +89,7 @@ def run(prop, tier, replay, Ctx):
         raise Ctx.Machinery("h_layout exited with %s and no report" % p.returncode)
     with open(out) as f:
         rep = json.load(f)
-    expected = summary["cases"][tier] + 9
+    expected = summary["cases"][tier] + 9 + summary["sequences"][tier]
     if rep["coverage"]["evaluations"] != expected:
         raise Ctx.Machinery("h_layout evaluated %s cases, the generator emitted %s" % (rep["coverage"]["evaluations"], expected))
     rep["coverage"]["generator"] = dict(summary, repo=repo)
